@@ -301,13 +301,23 @@ func c14() []*Ob {
 								sorted = true
 							}
 						}
+						// positive provenance: an element of the slice that was handed to sort.Sort, read after the sort
+						sortedVals := map[ssa.Value]bool{}
+						for _, sc := range CallsIn(fn, Callee("sort.Sort", "sort.Stable")) {
+							DerivesFrom(sc.Common().Args[0], func(v ssa.Value) bool {
+								if mi, ok := v.(*ssa.MakeInterface); ok {
+									sortedVals[mi.X] = true
+								}
+								return false
+							})
+						}
 						okSrc := true
 						for _, idx := range []int{1, 2} {
-							fromParam := DerivesFromNoCall(RetOperand(ret, idx), func(v ssa.Value) bool {
+							fromSorted := DerivesFrom(RetOperand(ret, idx), func(v ssa.Value) bool {
 								ia, ok := v.(*ssa.IndexAddr)
-								return ok && ia.X == param
+								return ok && sortedVals[ia.X]
 							})
-							if fromParam {
+							if !fromSorted {
 								okSrc = false
 							}
 						}
